@@ -319,15 +319,7 @@ func C02(p *core.Program, r *core.Report) {
 			ic, ok := l.Index.(*ssa.Call)
 			return ok && ic.Common().IsInvoke() && ic.Common().Method.Name() == "BlockTypeCode"
 		}}},
-		{"payload-block-last", cv, []func(ssa.Value) bool{mentionsInvoke("BlockTypeCode"), mentionsConst(c("ExtBlockTypePayloadBlock")), func(v ssa.Value) bool {
-			// the element inspected is [len-1]
-			ia, ok := v.(*ssa.IndexAddr)
-			if !ok {
-				return false
-			}
-			b, ok := ia.Index.(*ssa.BinOp)
-			return ok && b.Op == token.SUB
-		}}},
+		{"payload-block-last", cv, payloadLastPreds(c("ExtBlockTypePayloadBlock"))},
 		{"payload-block-number-1", ccv, []func(ssa.Value) bool{mentionsInvoke("BlockTypeCode"), mentionsField("BlockNumber"), mentionsConst(1)}},
 		{"zero-time-needs-age-block", cv, []func(ssa.Value) bool{mentionsCall(bp7 + ".CreationTimestamp.IsZeroTime"), func(v ssa.Value) bool {
 			cc, ok := v.(*ssa.Call)
@@ -900,4 +892,30 @@ func constValAbs(p *core.Program, pkgPath, name string) int64 {
 		}
 	}
 	return -1 << 62
+}
+
+
+// payloadLastPreds: the operands of "the last block is the payload block" - the type code (through the block's
+// interface or CanonicalBlock.TypeCode) of the element at [len-1], compared with the payload block's type constant.
+func payloadLastPreds(payloadType int64) []func(ssa.Value) bool {
+	return []func(ssa.Value) bool{
+		func(v ssa.Value) bool {
+			return mentionsInvoke("BlockTypeCode")(v) || mentionsCall(bp7 + ".CanonicalBlock.TypeCode")(v)
+		},
+		mentionsConst(payloadType),
+		func(v ssa.Value) bool {
+			ia, ok := v.(*ssa.IndexAddr)
+			if !ok {
+				return false
+			}
+			b, ok := ia.Index.(*ssa.BinOp)
+			return ok && b.Op == token.SUB
+		}}
+}
+
+// checkPayloadLastGuard is the "payload block last" rule guard on its own (also a clause of C01).
+func checkPayloadLastGuard(p *core.Program, r *core.Report) {
+	cv := p.Func(bp7, "Bundle", "CheckValid")
+	k := constVal(p, bp7, "ExtBlockTypePayloadBlock")
+	r.Check(guardMentions(cv, payloadLastPreds(k)...), "rule-guard/"+fname(cv)+"/payload-block-last", "the validator, which the parser runs on everything it accepts, contains an error-producing branch whose condition compares the TYPE of the last block with the payload block's type", p.Pos(cv.Pos()), "", "no error branch guarded by a condition mentioning the last block's type code and the payload type constant")
 }
